@@ -131,7 +131,10 @@ def plan_C02(tier, seed, q):
         jobs += sched_jobs("C02", tier, seed, [{"n": 2, "l": 4, "race": 3}, {"n": 3, "l": 3}], shards=4, kind="vt-race", timeout=3000)
         jobs += e2e_jobs("C02", tier, seed, "mix", 200, 3000, shards=8, race_t=300)
         jobs += pool_jobs("C02", tier, seed, [("limits", 8000), ("restart", 8000)], shards=8)
-    return {"level": "fault_enumeration", "exhaustive": True,
+    return {"level": "fault_enumeration", "exhaustive": False,
+            "exhaustive_parts": ["every statically valid event script for (N=2, L<=6), (N=3, L<=4), (N=1, L<=6)" if q else
+                                 "every statically valid event script for (N=2, L<=7), (N=3, L<=5), (N=1, L<=7)",
+                                 "larger (N, L) are sampled (every k-th script), racing variants repeat each script a few times, generated e2e/pool workloads are sampled"],
             "rule": SCHED_RULE % "" + "; oracle: every operation is signalled exactly once (Done arrivals counted on a channel with room; "
             "blocking forms return once), Error unchanged after the first signal, successful replies == f(args), and fresh pooled "
             "calls parked on a second connection are not completed by a late signal (canary); plus generated workloads on the real stack (engine e2e) "
@@ -182,7 +185,10 @@ def plan_C03(tier, seed, q):
     else:
         jobs = cut_jobs("C03", tier, seed, list(range(9)), [], 1, 16, timeout=3000)
         jobs += cut_jobs("C03", tier, seed, [0, 5], [], 1, 8, kind="vt-race", timeout=3000)
-    return {"level": "fault_enumeration", "exhaustive": True, "rule": CUT_RULE + "; oracles at quiescence: every operation has returned; a call whose "
+    return {"level": "fault_enumeration", "exhaustive": not q,
+            "exhaustive_parts": ["every (direction, byte offset, kind) of the conversation for one mode combination; every 7th offset for the other eight" if q else
+                                 "every (direction, byte offset, kind) and every (step, Close) of the conversation for all nine mode combinations"],
+            "rule": CUT_RULE + "; oracles at quiescence: every operation has returned; a call whose "
             "complete response frame lies inside the bytes delivered to the client succeeded with f(args) (or its own error text); every other "
             "outstanding call failed, with ErrShutdown when it had been written and the end was orderly; operations started after the end "
             "was observable fail with ErrShutdown in zero virtual time; a Call issued afterwards fails at once writing nothing",
@@ -206,7 +212,10 @@ def plan_C08(tier, seed, q):
             for hdr in ("default", "code"):
                 ex = {"side": side, "hdr": hdr, "mode": 0, "full": False, "bursts": 600 if side == "server" else 0}
                 jobs.append(Job("rt-race", "hostile", {"prop": "C08", "tier": tier, "seed": seed + 1, "extra": ex}, timeout=3300))
-    return {"level": "fault_enumeration", "exhaustive": True,
+    return {"level": "fault_enumeration", "exhaustive": False,
+            "exhaustive_parts": ["all 256 upgrade bytes x 4 method kinds x 3 body kinds", "every truncation of every corpus frame",
+                                 "every single-bit flip and {00,7f,80,ff} at every position of every corpus frame (first 80 bytes of the 70 KB frame)",
+                                 "random frames, multi-byte mutations and burst+disconnect timings are sampled"],
             "rule": "inputs are byte strings delivered as one frame to a real ServeCodec loop (server side) or to a real Conn with calls, a ping "
                     "and an acknowledged stream outstanding (client side), per header encoder x I/O mode: a corpus of valid frames (every handler "
                     "shape, ping, stream open/message/close for known and unknown ids, unknown/empty method, undecodable/empty/70 KB body), ALL 256 "
